@@ -9,7 +9,7 @@ spec syntax (one rule per block, '#' comment lines allowed between blocks):
 
   @loop NAME #K /header-regex/ [tags]
   <clauses inserted between the loop header and the loop body
-   (for `do` loops: after the closing `while (...)`, before ';')>
+   (for `do` loops: right after `do`; CBMC supports them only in --dfcc mode)>
   @end
 
   @after NAME /statement-regex/ [tags]      (also @before)
@@ -209,7 +209,8 @@ def find_loops(m, b0, b1):
                 raise SpliceError('do without while')
             op = m.index('(', k)
             cp = match_paren(m, op)
-            loops.append({'kw': 'do', 'start': s, 'hdr_end': cp + 1, 'insert': cp + 1,
+            # CBMC accepts loop clauses on do-while loops only right after `do` (and only with --dfcc)
+            loops.append({'kw': 'do', 'start': s, 'hdr_end': cp + 1, 'insert': mo.end(),
                           'hdr': (s, mo.end()), 'hdr2': (k, cp + 1), 'closing_while': k})
             continue
         if kw == 'while':
